@@ -324,6 +324,18 @@ class TermEval:
                 cls = self.idx.find_class(r.id)
                 if cls is not None and self.idx.subclasses(r.id) and not _instantiated(self.idx, r.id):
                     return False
+        # `x is None` / `x is not None` for a local whose abstract value on this path is known
+        if isinstance(test, ast.Compare) and len(test.ops) == 1 and isinstance(test.ops[0], (ast.Is, ast.IsNot)) and isinstance(test.left, ast.Name) \
+                and isinstance(test.comparators[0], ast.Constant) and test.comparators[0].value is None and test.left.id in p.env:
+            v = p.env[test.left.id]
+            if isinstance(v, SNone):
+                return isinstance(test.ops[0], ast.Is)
+            if isinstance(v, (SStr, SObj, SList)):
+                return isinstance(test.ops[0], ast.IsNot)
+        if isinstance(test, ast.UnaryOp) and isinstance(test.op, ast.Not):
+            inner = self._static_test(test.operand, p)
+            if inner is not None:
+                return not inner
         # a condition already on the path
         t = self._ctext(test, p)
         for c, v in p.conds:
